@@ -471,10 +471,17 @@ def _parse_fmt(fmt):
     if order not in (">", "!"):
         raise Unsupported("struct format byte order %r" % order)
     items = []
+    count = ""
     for ch in fmt:
+        if ch.isdigit():
+            count += ch
+            continue
         if ch not in _FMT:
             raise Unsupported("struct format char %r" % ch)
-        items.append(_FMT[ch])
+        items.extend([_FMT[ch]] * (int(count) if count else 1))
+        count = ""
+    if count:
+        raise Unsupported("struct format %r" % fmt)
     return items
 
 
